@@ -96,6 +96,48 @@ def run(prog, chk):
     chk.ob('R17.3', end, end.ln, not bad3, 'outcome string: counterexamples %s' % bad3[:3], key='outcome:endScope')
     chk.ob('R17.3', rec, rec.ln, not badagree, 'object-field recorder agrees with the scope recorder on every state; counterexamples: %s' % badagree[:3], key='outcome:recordTrackedValue')
 
+    # the record the outcome strings are built from: each measurement is stored under the measured qubit's own index (C02's R02.5)
+    from .C02 import evaluator_measure_sites
+    evaluator_measure_sites(prog, chk, R, R.sim_classify()['measure'], 'R17.3')
+    # the owner of a tracked field that only a garbage cycle still refers to ends inside the run: the collector keeps such referrers
+    # alive while the program runs (C11 R11.5), but the collection at the end of the run must release them — at teardown nothing is
+    # recorded any more
+    from . import C11 as _c11
+
+    class _Quiet:
+        def __init__(self):
+            self.extra = {}
+            self.vacuous = []
+
+        def rule(self, *a, **k):
+            pass
+
+        def ob(self, *a, **k):
+            return True
+
+        def count(self, *a, **k):
+            pass
+
+        def note(self, *a, **k):
+            pass
+    q_ = _Quiet()
+    gc_ = R.ev_method('runCycleCollector')
+    entry_ = None
+    for f_ in R.ev_methods():
+        for lf_ in f_.lambdas:
+            for n_ in SX.walk(f_.body, into_lambdas=False):
+                if n_['k'] == 'construct' and n_['type'] == 'std::thread' and lf_.node in n_['args']:
+                    entry_ = lf_
+    if entry_ is None:
+        raise AnalysisBroken('timer thread entry lambda not found')
+    valrec_ = _c11._value_record(prog)
+    _c11._rule_sweep_closed(prog, q_, R, gc_, R.ev_method('markObject'), [f_['name'] for f_ in valrec_['fields'] if 'std::shared_ptr<bloch::runtime::Object>' in f_['type']], entry_)
+    sc_ = q_.extra.get('sweep_closure')
+    if sc_ and sc_['found']:
+        chk.ob('R17.8', gc_, sc_.get('line') or gc_.ln, sc_['skipped_when_run_is_over'],
+               'the collector keeps the referrers of objects with tracked fields alive only while the program runs: the closure over %s is skipped once the run is over, so the '
+               'end-of-run collection releases them and their tracked outcomes are recorded (kept until teardown they are dropped silently: counts fall short of N × exits)' % sc_['kept_set'],
+               key='end-of-run-release')
     # ---- R17.2 ---------------------------------------------------------------------------------
     nb = 0
     for f in [x for x in R.ev_methods() if x.body]:
